@@ -121,6 +121,9 @@ def kernel_twins(rep, repo, mod):
 
 def capture_twins(rep, repo, mod):
     rep.rule('C06.capture', 'wave_capture_gpu equals wave_capture_cpu under w[k] <-> c[line+k, vector]; tolerated: the sampling seed term')
+    from checks import capture_eval
+    if capture_eval.decide(rep, repo, 'C06.capture', (3, 4, 5, 6, 7, 10), agree=True):
+        return          # decided by evaluating both c_to_s implementations on a family of waveforms and comparing their results
     _, loops = c03.capture_loops(repo)
     (_, f, lc, bc), (_, g, lg, bg) = loops
     a = [cz(s) for s in bc]
